@@ -26,7 +26,7 @@ import sys
 import time
 
 V = os.path.dirname(os.path.dirname(os.path.abspath(__file__)))
-SCRATCH = "/var/tmp/mut/tree"
+SCRATCH = os.environ.get("MUT_SCRATCH", "/var/tmp/mut/tree")
 
 ap = argparse.ArgumentParser()
 ap.add_argument("file")
